@@ -123,7 +123,7 @@ static void exec_line(char *line) {
   if (!strcmp(w[0], "open") && n == 4) {            // open <path> <crc> <bufsz>: fresh store, WAL on
     snprintf(kvpath, sizeof kvpath, "%s", w[1]); snprintf(walpath, sizeof walpath, "%s-wal", w[1]);
     IWKV_OPTS o = { .path = kvpath, .oflags = IWKV_TRUNC, .wal = { .enabled = true, .check_crc_on_checkpoint = atoi(w[2]) != 0,
-      .wal_buffer_sz = (size_t) atol(w[3]), .savepoint_timeout_sec = 1000000, .checkpoint_timeout_sec = 2000000 } };
+      .wal_buffer_sz = (size_t) atol(w[3]), .savepoint_timeout_sec = 2000000000u, .checkpoint_timeout_sec = 4000000000u } };
     n_trunc = 0;
     iwrc rc = iwkv_open(&o, &kv);
     printf("open %s", rcname(rc)); tail_status();
@@ -196,7 +196,7 @@ static void exec_line(char *line) {
     } else { spit(w[1], L_pre, L_pren); spit(wp, d, dn); }
     free(d);
     IWKV_OPTS o = { .path = w[1], .wal = { .enabled = true, .check_crc_on_checkpoint = crc != 0, .wal_buffer_sz = 4096,
-      .savepoint_timeout_sec = 1000000, .checkpoint_timeout_sec = 2000000 } };
+      .savepoint_timeout_sec = 2000000000u, .checkpoint_timeout_sec = 4000000000u } };
     IWKV k2 = 0; iwrc rc = iwkv_open(&o, &k2);
     size_t mn; uint8_t *m = slurp(w[1], &mn);
     const char *cls = !rc ? "ok" : rc == IWKV_ERROR_CORRUPTED_WAL_FILE ? "walcorrupt" : rc == IWFS_ERROR_MAXOFF ? "ioerr" : "ok";
